@@ -149,6 +149,8 @@ def _form_env(e: ast.AST, st: _PathState, atom_name, atoms: Dict[str, int]) -> F
     if nm is not None:
         if nm.startswith("!"):
             nm, neg = nm[1:], True
+        atoms.setdefault(nm, len(atoms))  # a proposition the caller names is one proposition wherever it is written
+        return ("not", ("atom", nm)) if neg else ("atom", nm)
     else:
         x = e
         if isinstance(e, ast.Compare) and len(e.ops) == 1:
